@@ -531,7 +531,7 @@ pub fn run_as(cfg: &RunCfg, prop: &'static str, fixed_seqs: Option<u64>) -> Repo
             lines.push(b.line.clone());
             if res.ok() { rep.ops_ok += 1; } else { rep.err(&format!("{}:{}", opname, exit_class(res.code))); }
             let replay_hdr = vec![
-                format!("property {} (payment channel campaign) seed {} seq {} (re-run: ba_harness c16 --seed {} --only-seq {})", prop, cfg.seed, seq, cfg.seed, seq),
+                format!("property {} (payment channel campaign) seed {} seq {} (re-run: ba_harness {} --seed {} --only-seq {})", prop, cfg.seed, super::seq_label(seq), prop.to_lowercase(), cfg.seed, super::seq_label(seq)),
                 format!("failing step {}: {:?}", step, op),
             ];
             if res.panicked {
